@@ -173,6 +173,9 @@ def main(tier):
                 here = set(ls.split()[1].split(",")) if ls.startswith("ok ") and ls.split()[1] != "-" else set()
                 if wa and wb and wa[0] == "ok" and wb[0] == "ok" and wa[-1] != wb[-1] and o < len(src) and here:
                     new = here - known_sites
+                    # per-site class: the leak at `sub` is known only inside an st command (site_conditions in known_findings.json)
+                    if "sub" in here and not src.decode("utf-8", "replace").lstrip().startswith("^st"):
+                        new = new | {"sub(outside an st command)"}
                     if new:
                         run.violation("new-emit-then-fail-site:" + ",".join(sorted(new)), rep)
                     else:
